@@ -112,6 +112,7 @@ var generators = []generator{
 	{"write-protocol", []string{"R16a", "R16b", "R16c", "R16d"}, func(c *Ctx, _ map[string]bool) { writeProtocolRules(c) }},
 	{"size-limits", []string{"R18b", "R18c", "R18d"}, func(c *Ctx, _ map[string]bool) { sizeLimitRules(c) }},
 	{"status-mapping", []string{"R17d"}, func(c *Ctx, _ map[string]bool) { statusMapping(c) }},
+	{"file-handles", []string{"R14k", "R04h"}, func(c *Ctx, _ map[string]bool) { fileHandleRules(c) }},
 }
 
 // runOwned runs the generators that can emit one of the property's rules.
@@ -155,8 +156,8 @@ func init() {
 	prop("C03", []string{"R03a", "R03b", "R03c", "R03d", "R03e", "R03f"},
 		structural+"Decided: (R03b) the three counters and the index are written only by Add / removeElement / Reserve / Unreserve; (R03c) each of those changes the counters by exactly the 4 KiB-rounded size of the entry that enters or leaves, or the reserved amount, on every exit (linear-form analysis), failing exits change nothing; (R03d) the eviction loops run exactly until currentSize + delta <= maxSize for the delta added next; (R03a) every Reserve in the disk cache is paired with exactly one Unreserve of the same amount on every path including deferred clean-up; (R03e) removeElement re-validates stale list handles; (R03f) /status reports those counters.",
 		"Not decided: the arithmetic invariant as a statement about runtime values across interleavings (that is induction over histories; the rules give its inductive step per mutator and the pairing per request path); overflow of int64 sums.")
-	prop("C04", []string{"R04a", "R04b", "R04c", "R04d", "R04e", "R04f", "R04g"},
-		structural+"Decided: (R04a) every temp file created in Put / get is indexed or removed on every exit; (R04b) every removal from the index queues the removed entry's file for deletion, an overwrite queues the old value; (R04c) the background remover deletes exactly the queued entry's path; (R04d) every os.Remove / Open in cache/disk works on a path derived from FileLocation / getElementPath or a created temp file; (R04e) the name a file is created under, the name computed for lookups and the start-up loader's grammar agree for every (kind, legacy) combination; (R04f) the file opened for a hit is the indexed entry's own path; (R04g) SizedLRU.Add refuses an entry before it touches list, map, value or eviction queue, so the caller's removal of the refused file cannot leave an indexed entry without a file.",
+	prop("C04", []string{"R04a", "R04b", "R04c", "R04d", "R04e", "R04f", "R04g", "R04h"},
+		structural+"Decided: (R04a) every temp file created in Put / get is indexed or removed on every exit; (R04b) every removal from the index queues the removed entry's file for deletion, an overwrite queues the old value; (R04c) the background remover deletes exactly the queued entry's path; (R04d) every os.Remove / Open in cache/disk works on a path derived from FileLocation / getElementPath or a created temp file; (R04e) the name a file is created under, the name computed for lookups and the start-up loader's grammar agree for every (kind, legacy) combination; (R04f) the file opened for a hit is the indexed entry's own path; (R04g) SizedLRU.Add refuses an entry before it touches list, map, value or eviction queue, so the caller's removal of the refused file cannot leave an indexed entry without a file; (R04h) an entry whose file cannot be opened while the index lock is held is dropped from the index.",
 		"Not decided: file-system behaviour (rename/remove atomicity), that the directory is otherwise untouched, timing of the background remover (quiescence is a runtime notion).")
 	prop("C05", []string{"R05a", "R05b", "R05d", "R05e", "R03d", "R03c"},
 		structural+"Decided: (R05a) every index hit moves the element to the front before it is returned and Add pushes to the front, the map is touched by SizedLRU methods only; (R05b) victims come from the back of the list; (R03d) the eviction loop guard is the exact negation of the fit condition for the incoming delta (no eviction without pressure, minimal eviction); (R05d) an item that cannot fit is rejected before any eviction; (R05e) Put reserves the logical size and commit adds size = logical size, sizeOnDisk = bytes written; (R03c) the accounted size every eviction decision is taken from changes by exactly the entry that enters or leaves, so no phantom pressure builds up.",
@@ -185,7 +186,7 @@ func init() {
 	prop("C13", []string{"R13a", "R13b", "R13c", "R13d", "R13e", "R13f", "R13g"},
 		structural+"Decided: (R13a/b/c) the inventory of registered gRPC methods is read from the service descriptors, each is classified mutating iff its handler reaches Cache.Put, and the unauthenticated-read allow-list contains only registered, non-mutating methods; (R13d) in each auth interceptor every path to the handler is the health check, an allowed read, or a passed credential check; (R13e/R13f) for every valuation of the configuration the gRPC server and every HTTP route (/, /status, /metrics) is wrapped by the interceptor / handler that valuation requires; (R13g) the unauthenticated wrapper forwards only GET and HEAD and every Put in the HTTP handler is behind the PUT method and the write-certificate check.",
 		"Not decided: the cryptographic verification itself (crypto/tls, go-http-auth, LDAP library), TLS handshake configuration beyond ClientAuth, password file parsing.")
-	prop("C14", []string{"R14a", "R14b", "R14c", "R14d", "R14e", "R14f", "R14g", "R14h", "R14i", "R14j", "R03a", "R04a", "R16c"},
+	prop("C14", []string{"R14a", "R14b", "R14c", "R14d", "R14e", "R14f", "R14g", "R14h", "R14i", "R14j", "R14k", "R03a", "R04a", "R16c"},
 		structural+"Decided: (R14a) every field selection through a nilable protobuf message pointer in request code is dominated by a non-nil fact; (R14b) every division by a non-constant is dominated by a non-zero fact; (R14c) every non-induction index is dominated by a length bound; (R14g) no log.Fatal / os.Exit / panic is reachable from a handler, interceptor or cache method; (R14d) every closer obtained on a request path is closed, returned or handed over on every exit; (R14e) every pipe's read end is terminated so writers cannot block for ever; (R14f) goroutines started by a request can always finish (sends never exceed channel capacity); (R14h) every digest put into the list handed to the presence check is non-nil (the check dereferences its elements while holding the cache lock); (R03a/R04a) reservations and temp files are released on every exit.",
 		"Not decided: panics inside third-party libraries, unbounded memory from huge messages, termination of loops over attacker-controlled data, goroutines of the gRPC/HTTP servers themselves.")
 	prop("C15", []string{"R15a", "R15b", "R15c", "R15d", "R15e"},
